@@ -1588,6 +1588,7 @@ class Message(ABC):
                     if (
                         value != DATETIME_ZERO
                         or include_default_values
+                        or meta.optional
                         or self._include_default_value_for_oneof(
                             field_name=field_name, meta=meta
                         )
@@ -1597,6 +1598,7 @@ class Message(ABC):
                     if (
                         value != timedelta(0)
                         or include_default_values
+                        or meta.optional
                         or self._include_default_value_for_oneof(
                             field_name=field_name, meta=meta
                         )
@@ -1628,6 +1630,7 @@ class Message(ABC):
                 elif (
                     value._serialized_on_wire
                     or include_default_values
+                    or meta.optional
                     or self._include_default_value_for_oneof(
                         field_name=field_name, meta=meta
                     )
